@@ -25,7 +25,8 @@ META = {
         "WORD units (multiply, square, Montgomery product / reduction, divide_std_dword): every word is 0 <= w < 2^64 and nothing else is assumed; results are exact polynomial identities; the only non-polynomial steps are monotone bounds on non-negative integers (T*R == A*B + U*p with A, B < p, U < R gives T < 2p; a carry dropped above the top word of a product that fits is 0), spelled out in contracts/fpmulw.py",
         "Fp::multiply / square / montgomery_reduce end in FpBase::reduce, which enters through its own CBMC contract (argument < 2p => result == argument mod p, < p)",
         "fp_inverse: partial correctness by an inductive invariant over the three loops (b == K*u, c == K*v mod p); each 'multiple of p' claim carries an explicit certificate m*X == p*Y + sum c_i*rel_i that is re-checked exactly; K exists because the modulus is prime (Miller-Rabin, 64 bases); infeasible integer branches pruned with z3 (QF_LIA); termination (gcd(u,v) == 1) not proved",
-        "exponentiate / Legendre / square roots: exponent view with loop cuts; Euler's criterion and the Tonelli-Shanks / q == 3 (mod 4) formulas are textbook facts applied to the proved exponents",
+        "exponentiate / Legendre / Fq::square_root: exponent view with loop cuts; Euler's criterion and the q == 3 (mod 4) root formula are textbook facts applied to the proved exponents",
+        "Fr::square_root (Tonelli-Shanks): loop cut on the outer loop in the exponent view a^alpha * c0^gamma (gamma modulo 2^32, parity syntactic because odd quantities are written 2x+1); for every m in 1..32 and every order 2^i of t one real iteration re-establishes the invariant with m' = i < m (termination) or exits with x^2 == a; claimed for squares only; F_r^* cyclic, the root-of-unity constant of exact order 2^32 (closed fact)",
         "the assembly back ends that replace these routines on x86-64 are C03 (bigint.s covered; multiply.s / bmi2 not)"]),
     "C11": dict(level="other", explanation=WKD_EXPL, assumptions=GROUP_ASSUME),
     "C12": dict(level="other", explanation=WKD_EXPL, assumptions=GROUP_ASSUME),
